@@ -4,7 +4,7 @@ seed (git checkout -- .) and verified clean at the end."""
 import json, os, subprocess, sys, glob
 VERIF = "/verif"
 seeds = sorted(glob.glob(f"{VERIF}/seeded/*/patch.diff"))
-only = sys.argv[1:]
+only = [a for a in sys.argv[1:] if not a.startswith("-")]
 m = json.load(open(f"{VERIF}/MANIFEST.json"))
 props = [c["property_id"] for c in m["checks"]]
 def sh(cmd, **kw):
@@ -37,4 +37,12 @@ for patch in seeds:
     finally:
         sh("git -C /repo checkout -- .")
 assert sh("git -C /repo status --porcelain").stdout.strip() == "", "/repo not clean after run"
+if only:
+    try:
+        prev = json.load(open(f"{VERIF}/seeded/last_run.json"))
+    except Exception:
+        prev = {}
+    prev.update(summary)
+    summary = prev
+summary = {k: summary[k] for k in sorted(summary) if os.path.exists(f"{VERIF}/seeded/{k}/patch.diff")}
 json.dump(summary, open(f"{VERIF}/seeded/last_run.json", "w"), indent=1)
